@@ -230,6 +230,7 @@ def run_case(ctx):
     if limits is not None and all(l >= r for l, r in zip(limits, ranks)):
         ctx.cls("rank-below-limit")
 
+    qntot_before = np.array(mps.qntot, copy=True)
     res = ctx.lib(mps.compress, what="compress|" + list(tgt)[0], **kwargs)
     ctx.check(res is mps, "compress|does-not-return-self")
     after = list(mps.bond_dims)
@@ -260,6 +261,6 @@ def run_case(ctx):
               lower=lower, before=before, after=after, tails=tails)
     ctx.check(dist >= lower - slack, "distance-below-eckart-young-bound|" + list(tgt)[0], dist=dist, lower=lower,
               after=after)
-    ctx.check(np.array_equal(np.asarray(mps.qntot), np.asarray(mps.qntot)), "qntot")
+    ctx.check(np.array_equal(np.asarray(mps.qntot), qntot_before), "compress|qntot-changed", before=qntot_before, after=mps.qntot)
     if upper > 1e-12 * max(norm0, 1e-300):
         ctx.nontrivial(desc)
